@@ -75,6 +75,7 @@ func main() {
 	reference := flag.Bool("reference", false, "serve baseline answers from a tree that is never extended (child of a worker)")
 	flag.Parse()
 	inputs.SampleDir = *samples
+	inputs.CorpusFile = os.Getenv("VERIF_CORPUS")
 	if *selfcheck {
 		// every family with extreme parameters must materialise without panicking
 		n := 0
